@@ -85,8 +85,13 @@ namespace igris
         static void serialize(Archive &keeper, const std::vector<T> &vec)
         {
             igris::serialize(keeper, (uint16_t)vec.size());
-            igris::serialize(keeper,
-                             igris::archive::data<T>{vec.data(), vec.size()});
+
+            // Element by element, mirroring deserialize. For arithmetic T
+            // this is byte for byte the former raw image of the array.
+            for (const T &value : vec)
+            {
+                igris::serialize(keeper, value);
+            }
         }
 
         static void deserialize(Archive &keeper, std::vector<T> &vec)
